@@ -87,6 +87,29 @@ def solve(ctx, tag, p):
     return (r, nodes, elems), None
 
 
+def reciprocal_when_converged(ctx, k, st, kind, axi, freq, scale, idx):
+    """the induced quantities are small differences of large sums: an asymmetry that is due to the PCG stopping tolerance
+    (relative residual = Precision) shrinks when the same two problems are solved with Precision 1e-11"""
+    out = []
+    for tag, S in (("e1p", {"V1": scale["V1"]}), ("e2p", {"V2": scale["V1"]})):
+        p = make_variant(st, kind, axi, S, freq)
+        p["precision"] = 1e-11
+        sol, err = solve(ctx, "c%d_%s" % (k, tag), p)
+        if err:
+            return False
+        out.append(sol[0])
+    r1, r2 = out
+    if kind == "fem" and freq:
+        m21 = complex(r1["q2"][4], r1["q2"][5]) if len(r1["q2"]) >= 6 else r1["q2"][idx]
+        m12 = complex(r2["q1"][4], r2["q1"][5]) if len(r2["q1"]) >= 6 else r2["q1"][idx]
+    else:
+        m21, m12 = r1["q2"][idx], r2["q1"][idx]
+    ok = abs(m21 - m12) <= 2e-6 * max(abs(m21), abs(m12), 1e-300)
+    if ok:
+        ctx.res.cov["asymmetries_gone_with_precision_1e-11"] = ctx.res.cov.get("asymmetries_gone_with_precision_1e-11", 0) + 1
+    return ok
+
+
 def field(nodes, kind, harmonic):
     if kind == "fem" and harmonic:
         return [complex(n[2], n[3]) for n in nodes]
@@ -162,7 +185,7 @@ def correspond(ctx):
                 if asym > 2e-2 or asym2 > 0.75 * asym + 1e-6:
                     ctx.fail("axisymmetric mutual inductance is not symmetric to mesh accuracy: asymmetry %.3g on the mesh, %.3g on the refined mesh"
                              % (asym, asym2), kind=kind, axi=axi)
-        elif abs(m21 - m12) > 2e-5 * sc:
+        elif abs(m21 - m12) > 2e-5 * sc and not reciprocal_when_converged(ctx, k, st, kind, axi, freq, scale, idx):
             ctx.fail("reciprocity fails: response of terminal 2 to terminal 1 is %r but of 1 to 2 is %r" % (m21, m12), kind=kind, axi=axi, frequency=freq)
         if len(samples) < 3:
             samples.append(dict(kind=kind, axi=axi, frequency=freq, S1=S1, S2=S2, a=a, b=b, nodes=len(f1), mutual=[str(m21), str(m12)]))
